@@ -203,25 +203,43 @@ def sched(family, tier, bound, parts, maxs=None):
     return out
 
 
+def longruns(patterns, lru=0):
+    out = []
+    for kind in ("U", "S"):
+        for w in (0, 1):
+            for pattern, cap, n in patterns:
+                sp = spec(kind=kind, cap=cap, w=w, keys=3, lru=lru, autosync=1 if (kind == "S" and lru) else 0)
+                out.append({"id": "long-%s-%s-w%d-cap%s" % (pattern, kind, w, cap), "argv": ["longrun", sp, pattern, str(n)]})
+    return out
+
+
 def jobs_for(prop, tier):
     thorough = tier == "thorough"
     j = _jobs_for(prop, tier)
+    # long scripted histories through the same per-step oracles (thresholds beyond any
+    # exhaustive depth: sketch enabled at half full, 128-word table, batches)
+    if prop == "C14":
+        j = j + longruns([("fill", 300, 250), ("fill", 200, 250), ("churn", 100, 250)])
+    elif prop in ("C03", "C04", "C10", "C11"):
+        j = j + longruns([("churn", 100, 250), ("churn", 20, 250), ("fill", 300, 250)])
+    elif prop in ("C12", "C13"):
+        j = j + longruns([("churn", 100, 250), ("churn", 20, 250)], lru=1)
     # explored schedules of the real sync cache (E2); the postlude of every schedule
     # checks structure, counters, drops, final state and the sequential refill
     b = 3 if thorough else 2
     loom = [{"id": "loom-atomic-instant", "argv": ["all"], "bin": "loom"}]
     if prop == "C02":
-        j = sched("c02", tier, b, 16) + sched("c02w", tier, b, 8) + sched("c02t", tier, b, 8) + sched("c07", tier, b, 2) + sched("c16", tier, b, 2) + loom
+        j = sched("c02", tier, b, 16) + sched("c02w", tier, b, 8) + sched("c02x", tier, b, 4) + sched("c02t", tier, b, 8) + sched("c07", tier, b, 2) + sched("c16", tier, b, 2) + loom
     elif prop == "C09":
         j = sched("c09", tier, 2 if thorough else 1, 8, 20000) + sched("c02", tier, 2, 16) + sched("c07", tier, 2, 2)
     elif prop == "C07":
-        j = j + sched("c07", tier, b, 4) + loom
+        j = j + sched("c07", tier, b, 4) + sched("c02x", tier, b, 4) + loom
     elif prop == "C16":
         j = j + sched("c16", tier, b, 3)
     elif prop == "C04":
         j = j + sched("c04", tier, 2, 2) + [{"id": "overshoot", "argv": ["overshoot"]}]
     elif prop in ("C03", "C08", "C10", "C11"):
-        j = j + sched("c02", tier, 2, 16) + sched("c02w", tier, 2, 8)
+        j = j + sched("c02", tier, 2, 16) + sched("c02w", tier, 2, 8) + sched("c02x", tier, 2, 4)
     elif prop == "C06":
         j = j + sched("c02t", tier, 2, 8)
     return j
